@@ -1,6 +1,7 @@
 SPECIFICATION Spec
 CONSTANTS
   ReserveK = {1048576, 1048476, 1047552, 524288, 100}
+  GapK = {524288}
   AppendK = {64, 8}
   MemberCounts = {30000, 35535, 65535, 1}
   FieldCounts = {256, 257}
